@@ -93,12 +93,15 @@ func sparseSubset(rng *rand.Rand, sdefs []seriesDef) []seriesDef {
 	}
 }
 
-// runSparseFixed: fixed case 23. Series ids are given in the order of the first write: A=1, B=2,
-// C=3, D=4 (k1 = 1, 2, 3, 3). Family 0's first storage unit holds {A, B, D}: a query `k1 = 3` selects
-// {C, D}, its smallest series C is absent from the unit, A and B precede it there — D sits at
-// position 2. The unit is asked as a memory database, as a file, next to a second unit that holds
-// all four, after compaction and reopen; plus selections whose first series is present / that have
-// nothing before them.
+// runSparseFixed: fixed case 23. Series ids are given by the index database in the order of the first
+// write: A=1, B=2, C=3, D=4 (k1 = 1, 2, 3, 3). A memory database flushes every series of the metric's
+// shard-level in-memory index (a series without rows in it gets an empty entry), so a storage unit
+// lacks a series only when the in-memory index lacked it: after a restart the index starts empty.
+// After the reopen only A, B, D are written: memory database and then file of family 0 hold {1,2,4};
+// a query `k1 = 3` selects {3,4}, its smallest series is absent from the unit, 1 and 2 precede it
+// there — series 4 sits at position 2. The unit is asked as a memory database, as a file, next to a
+// second unit that holds all four, after compaction and reopen; plus selections whose first series is
+// present / that have nothing before them.
 func runSparseFixed(r *run) {
 	r.oracleOn = true
 	qs, qe := fullRange(r.spf, 0)
@@ -110,10 +113,11 @@ func runSparseFixed(r *run) {
 	qin := qSpec{qs: qs, qe: qe, ratio: 1, cond: cond{kind: "in", k: 1, vs: []int{2, 3}}, by: []int{1, 2}, items: []qItem{{1, fnSum}}}
 	qall := qSpec{qs: qs, qe: qe, ratio: 1, cond: allCond(), by: []int{1, 2}, items: []qItem{{1, fnSum}}}
 	ask := func() { r.query(qk3); r.query(qk3by); r.query(qin); r.query(qall) }
-	// ids: every series gets its id in family 1 first (its memory database holds all four)
+	// ids: every series gets its id in family 1 first; the restart empties the in-memory index
 	for k, s := range []seriesDef{sA, sB, sC, sD} {
 		r.writeRow(1, s, 2+k, 0, w1(1, float64(1000*(k+1))), nil, false)
 	}
+	r.reopen()
 	for k, s := range []seriesDef{sA, sB, sD} {
 		r.writeRow(0, s, 5+k, 0, w1(1, float64(1+k)), nil, false)
 		r.writeRow(0, s, 6+k, 0, w1(1, float64(10*(1+k))), nil, false)
